@@ -64,6 +64,22 @@ Theorem C26_autosave_removed :
     exists s', final pl c p s = Some s' /\ s' Adv = None.
 Proof. exact removes_sound. Qed.
 
+(* The file the resumed run advertises — the one it autosaves to and `_run` removes at the end
+   (C26_autosave_removed is about that name) — is the path GIVEN to resume, not the path recorded in
+   the pickle by the interrupted run (they differ when the file was moved/renamed/copied or the cwd
+   changed), for every flow passing the check `file_rebound`. *)
+Theorem C26_resumed_file_is_given :
+  forall (P : Type) (fl : list stage) (given recorded : P),
+    file_rebound fl = true -> adv_at_run fl None given recorded = Some given.
+Proof. exact resumed_file_is_given. Qed.
+
+(* ... and a flow without the rebinding runs with the recorded path. *)
+Example C26_file_rebound_example :
+  file_rebound [SLoad; SRebind "autosave_file"%string; SRun] = true /\
+  file_rebound [SLoad; SLog; SRun] = false /\
+  adv_at_run [SLoad; SLog; SRun] None 1 2 = Some 2.
+Proof. exact file_rebound_example. Qed.
+
 (* The premises are satisfiable, and the post-processing premise matters: a machine whose resume flow
    lacks the permutation returns its results in internal order. *)
 Example C26_post_mismatch_example :
